@@ -102,6 +102,24 @@ func (s *c16State) apply(o c16Op) (ns *c16State, wantErr bool) {
 				k.inst = 2
 			}
 		}
+	case "buildmulti":
+		// BuildRuleFromResources: one resource per part, in order; the call ends at the first failing resource
+		k.exists = true
+		for _, id := range strings.Split(o.arg, "|") {
+			t := c16Texts[id]
+			if _, dup := k.active[t.name]; dup {
+				wantErr = true
+				k.dirty = true
+				break
+			}
+			k.active[t.name] = id
+			if k.stored == 1 {
+				k.stored = 2
+			}
+			if k.inst == 1 {
+				k.inst = 2
+			}
+		}
 	case "removelib":
 		if _, ok := k.active[o.arg]; ok && k.stored == 1 {
 			k.stored = 2
@@ -201,6 +219,19 @@ func c16Replay(keys []c16KBKey, hist []c16Op) (*ast.KnowledgeLibrary, []error, e
 				}()
 				errs[i] = builder.NewRuleBuilder(lib).BuildRuleFromResource(kk.name, kk.ver, pkg.NewBytesResource([]byte(strings.Join(parts, "\n"))))
 			}()
+		case "buildmulti":
+			var rs []pkg.Resource
+			for _, id := range strings.Split(o.arg, "|") {
+				rs = append(rs, pkg.NewBytesResource([]byte(c16Texts[id].grl)))
+			}
+			func() {
+				defer func() {
+					if r := recover(); r != nil {
+						errs[i] = fmt.Errorf("panic: %v", r)
+					}
+				}()
+				errs[i] = builder.NewRuleBuilder(lib).BuildRuleFromResources(kk.name, kk.ver, rs)
+			}()
 		case "removelib":
 			lib.RemoveRuleEntry(o.arg, kk.name, kk.ver)
 		case "store":
@@ -260,6 +291,7 @@ func C16(rep *ev.Reporter, tier string) {
 				ops = append(ops, c16Op{"build", kb, t})
 			}
 			ops = append(ops, c16Op{"build", kb, "X2+BAD"}) // enabled only while X exists (see below)
+			ops = append(ops, c16Op{"buildmulti", kb, "X2|Y"}, c16Op{"buildmulti", kb, "Y|X1"})
 			for _, n := range []string{"X", "Y"} {
 				ops = append(ops, c16Op{"removelib", kb, n})
 			}
@@ -317,7 +349,7 @@ func C16(rep *ev.Reporter, tier string) {
 					return
 				}
 				opClass := j.op.kind
-				if j.op.kind == "build" && wantErr {
+				if (j.op.kind == "build" || j.op.kind == "buildmulti") && wantErr {
 					opClass = "rejected-build"
 				}
 				type viol struct{ sig, what string }
@@ -331,7 +363,7 @@ func C16(rep *ev.Reporter, tier string) {
 						report("C16:store-load-fails:after-"+c16HistClass(j.n.hist, j.op), rerr.Error(), hist, sp.name)
 						return vs
 					}
-					if j.op.kind == "build" {
+					if j.op.kind == "build" || j.op.kind == "buildmulti" {
 						got := errs[len(hist)-1]
 						if (got != nil) != wantErr {
 							report("C16:build-error-mismatch:"+j.op.arg, fmt.Sprintf("model says duplicate=%v, BuildRuleFromResource returned %v", wantErr, got), hist, sp.name)
@@ -456,7 +488,7 @@ func C16(rep *ev.Reporter, tier string) {
 		rep.Exhaustive = false
 		rep.Coverage["caps_hit"] = "time budget"
 	}
-	rep.Coverage["rule"] = fmt.Sprintf("breadth-first search over operation histories (depth <= %d) on one library with two knowledge bases, in two spaces: (A,1)/(A,2) and the separator-collision pair (a:b,c)/(a,b:c). Operations per knowledge base: build X1, build X2 (same name, other body), build Y, build 'X1 X2' in one resource, build a duplicate of X followed by a rule with a syntax error (while X exists), library-level RemoveRuleEntry(X|Y), store + load with overwrite, store alone (checkpoint), create + execute an instance in the middle of the history. States are deduplicated on the MODEL state (active rules per knowledge base + whether a build was rejected there + whether a checkpoint store was taken / an instance was created, and whether the knowledge base changed after it); every transition replays its history on a fresh library with the real builder/serializer. After every step: build error iff the model says duplicate; for every knowledge base a fresh instance can be created and its FetchMatchingRules + Execute observation equals that of the model's active rule texts built alone; instance-level removal changes only that instance; a rule removed from the running instance in a listener callback (cycle 1 or 2) is neither evaluated nor fired from then on. states/transitions are those of the library model; every transition is non-trivial (it is validated against the implementation).", depth)
+	rep.Coverage["rule"] = fmt.Sprintf("breadth-first search over operation histories (depth <= %d) on one library with two knowledge bases, in two spaces: (A,1)/(A,2) and the separator-collision pair (a:b,c)/(a,b:c). Operations per knowledge base: build X1, build X2 (same name, other body), build Y, build 'X1 X2' in one resource, build a duplicate of X followed by a rule with a syntax error (while X exists), BuildRuleFromResources over two resources ('X2','Y' and 'Y','X1': the call ends at the first rejected resource), library-level RemoveRuleEntry(X|Y), store + load with overwrite, store alone (checkpoint), create + execute an instance in the middle of the history. States are deduplicated on the MODEL state (active rules per knowledge base + whether a build was rejected there + whether a checkpoint store was taken / an instance was created, and whether the knowledge base changed after it); every transition replays its history on a fresh library with the real builder/serializer. After every step: build error iff the model says duplicate; for every knowledge base a fresh instance can be created and its FetchMatchingRules + Execute observation equals that of the model's active rule texts built alone; instance-level removal changes only that instance; a rule removed from the running instance in a listener callback (cycle 1 or 2) is neither evaluated nor fired from then on. states/transitions are those of the library model; every transition is non-trivial (it is validated against the implementation).", depth)
 }
 
 // c16HistClass names the operation kinds that matter for a signature: the last op and whether a
